@@ -153,12 +153,14 @@ class Findings:
 
     def __init__(self, prop: str):
         self.prop = prop
-        self.entries = {}
+        self.entries = {}  # findings listed for this property
+        self.all = {}  # every listed finding (a pin may point at a finding first listed under another property)
         self.fixed = []
         if os.path.exists(FINDINGS_FILE):
             data = json.load(open(FINDINGS_FILE))
             self.fixed = [f for f in data.get("fixed", []) if f"property={prop} " in f]
             for e in data.get("findings", []):
+                self.all[e["id"]] = e
                 if prop in e.get("properties", [e.get("property")]):
                     self.entries[e["id"]] = e
         self.pins = {}
@@ -169,7 +171,7 @@ class Findings:
     def pinned(self, key: str, observed_digest: str):
         """finding id if (case key, observed answer) is exactly a listed failing case, else None"""
         hit = self.pins.get(key)
-        if hit and hit[1] == observed_digest and hit[0] in self.entries:
+        if hit and hit[1] == observed_digest and hit[0] in self.all:
             return hit[0]
         return None
 
@@ -232,7 +234,7 @@ class Report:
             json.dump(ev, f, indent=1, sort_keys=True, default=str)
             f.write("\n")
         for fid, e in sorted(self.known.items()):
-            what = e["what"] or self.findings.entries.get(fid, {}).get("what_fails", "")
+            what = e["what"] or self.findings.all.get(fid, {}).get("what_fails", "")
             print(f"KNOWN-FINDING: property={self.prop} {fid} {what} [{e['count']} case(s)]")
         if self.violations:
             d = os.path.join(REPLAY_DIR, self.prop)
